@@ -4,27 +4,38 @@ import (
 	"fmt"
 	"go/token"
 	"go/types"
+	"strings"
 
 	"golang.org/x/tools/go/ssa"
 
 	"lcv/core"
+	"lcv/eng"
 )
 
-// checkLineCounter: R03.9. In tokenizeStream's rune loop the line counter (the integer
-// loop-carried variable that is stored into token Line fields) advances at most once per
-// iteration; an increment that is not under the newline test is a *deferred* increment: it must be
-// guarded by a flag, clear that flag on the same path, and the flag may only be raised (through one
-// more flag) on a newline path that did not increment.
+// checkLineCounter: R03.9 / R03.11. Line accounting of tokenizeStream's rune loop.
+//
+// The loop keeps the current line number L (the integer loop variable that is stored into token Line fields) and may
+// hold back line breaks that were consumed but are not yet part of L (the hyphenation logic: counters that are later
+// added to L). Every path through one iteration of the loop is enumerated and L and the held counters are evaluated
+// along it as linear forms over their values at the top of the iteration. The rule (R03.9) is the accounting
+// invariant
+//
+//	(L + held) at the end  ==  (L + held) at the start  +  1 if the rune decoded in this iteration is '\n', else + 0
+//
+// so a newline is never counted twice, never lost, and nothing else moves the line number; the rune compared with
+// '\n' has to be the decoded rune itself (resolved along the path, so a rune rewritten from '\r' does not count).
+// R03.11: a held line break never survives the point where the words collected so far are handed to the document
+// (they get their line numbers there): after such a hand-over the counters are zero.
 func checkLineCounter(c *Ctx, p *core.Prog, rule string) {
 	fn := p.Func(v2pkg, "tokenizeStream")
 	if !c.R.Anchor(fn != nil, "v2.tokenizeStream") {
 		return
 	}
 	// the rune loop: innermost loop containing the utf8.DecodeRune call
-	var dec ssa.CallInstruction
+	var dec *ssa.Call
 	for _, call := range core.CallsIn(fn) {
 		if core.StaticCalleeName(call.Common()) == "unicode/utf8.DecodeRune" {
-			dec = call
+			dec, _ = call.(*ssa.Call)
 		}
 	}
 	if dec == nil {
@@ -49,17 +60,18 @@ func checkLineCounter(c *Ctx, p *core.Prog, rule string) {
 		return
 	}
 	inLoop := func(b *ssa.BasicBlock) bool { return header.Dominates(b) && reaches(b, header) }
-	// the line counter: an int header phi one of whose web values is passed as the `line` argument of
-	// appendToDoc / stored into a Line field
+	isInt := func(t types.Type) bool {
+		bt, ok := t.Underlying().(*types.Basic)
+		return ok && bt.Kind() == types.Int
+	}
 	var linePhi *ssa.Phi
+	intPhis := map[ssa.Value]bool{}
 	for _, in := range header.Instrs {
 		phi, ok := in.(*ssa.Phi)
-		if !ok {
+		if !ok || !isInt(phi.Type()) {
 			continue
 		}
-		if bt, ok := phi.Type().Underlying().(*types.Basic); !ok || bt.Kind() != types.Int {
-			continue
-		}
+		intPhis[phi] = true
 		if flowsToLine(phi) {
 			linePhi = phi
 		}
@@ -68,138 +80,266 @@ func checkLineCounter(c *Ctx, p *core.Prog, rule string) {
 		c.R.Fail(rule, "tokenizeStream: line counter", p.Pos(header.Instrs[0].Pos()), "no integer loop variable flows into token Line fields")
 		return
 	}
-	// (a) at most one increment per iteration
-	var incs []*ssa.BinOp
-	undec := ""
-	var inc func(v ssa.Value, seen map[ssa.Value]bool) int
-	inc = func(v ssa.Value, seen map[ssa.Value]bool) int {
-		if v == linePhi {
-			return 0
+	// the decoded rune
+	var runeVal ssa.Value
+	for _, r := range *dec.Referrers() {
+		if ex, ok := r.(*ssa.Extract); ok && ex.Index == 0 {
+			runeVal = ex
 		}
-		if seen[v] {
-			return 0
+	}
+
+	// ---- evaluation along a path ----------------------------------------------------------
+	type lin struct {
+		co map[ssa.Value]int // coefficients of symbols (header phis, or opaque values)
+		k  int
+	}
+	add := func(a, b lin, sign int) lin {
+		out := lin{co: map[ssa.Value]int{}, k: a.k + sign*b.k}
+		for s, n := range a.co {
+			out.co[s] += n
 		}
-		seen[v] = true
-		defer delete(seen, v)
-		switch x := v.(type) {
-		case *ssa.Phi:
-			if !inLoop(x.Block()) {
-				undec = "line value from outside the loop: " + x.String()
-				return 0
+		for s, n := range b.co {
+			out.co[s] += sign * n
+		}
+		for s, n := range out.co {
+			if n == 0 {
+				delete(out.co, s)
 			}
-			m := 0
-			for _, e := range x.Edges {
-				if k := inc(e, seen); k > m {
-					m = k
-				}
-			}
-			return m
-		case *ssa.BinOp:
-			if k, ok := core.ConstInt(x.Y); ok && x.Op == token.ADD && k == 1 {
-				found := false
-				for _, i := range incs {
-					if i == x {
-						found = true
+		}
+		return out
+	}
+	// resolve a value through the phis of the path (no arithmetic)
+	var resolve func(v ssa.Value, path eng.Path, depth int) ssa.Value
+	resolve = func(v ssa.Value, path eng.Path, depth int) ssa.Value {
+		phi, ok := v.(*ssa.Phi)
+		if !ok || depth > 12 || phi.Block() == header {
+			return v
+		}
+		for i, b := range path.Blocks {
+			if b == phi.Block() && i > 0 {
+				for k, pr := range b.Preds {
+					if pr == path.Blocks[i-1] {
+						return resolve(phi.Edges[k], path, depth+1)
 					}
 				}
-				if !found {
-					incs = append(incs, x)
-				}
-				return inc(x.X, seen) + 1
 			}
 		}
-		undec = "line counter updated by " + v.String()
-		return 0
+		return v
 	}
-	maxInc := 0
-	for i, e := range linePhi.Edges {
-		if inLoop(header.Preds[i]) {
-			if k := inc(e, map[ssa.Value]bool{}); k > maxInc {
-				maxInc = k
+	var eval func(v ssa.Value, path eng.Path, depth int) lin
+	eval = func(v ssa.Value, path eng.Path, depth int) lin {
+		v = resolve(v, path, 0)
+		if k, ok := core.ConstInt(v); ok {
+			return lin{co: map[ssa.Value]int{}, k: int(k)}
+		}
+		if bo, ok := v.(*ssa.BinOp); ok && depth < 12 && (bo.Op == token.ADD || bo.Op == token.SUB) {
+			sign := 1
+			if bo.Op == token.SUB {
+				sign = -1
+			}
+			return add(eval(bo.X, path, depth+1), eval(bo.Y, path, depth+1), sign)
+		}
+		return lin{co: map[ssa.Value]int{v: 1}}
+	}
+	isNewlinePath := func(path eng.Path) (newline bool, rewritten bool) {
+		for _, l := range path.Lits {
+			bo, ok := l.Cond.(*ssa.BinOp)
+			if !ok || bo.Op != token.EQL || !l.Truth {
+				continue
+			}
+			if k, ok := core.ConstInt(bo.Y); !ok || k != '\n' {
+				continue
+			}
+			if resolve(bo.X, path, 0) == runeVal {
+				newline = true
+			} else {
+				rewritten = true
 			}
 		}
-	}
-	if undec != "" {
-		c.R.Undecided(rule, "tokenizeStream: line counter update shape", p.Pos(linePhi.Pos()), undec)
 		return
 	}
-	c.R.Check(maxInc <= 1, rule, "tokenizeStream: the line counter advances at most once per consumed rune", p.Pos(linePhi.Pos()),
-		fmt.Sprintf("%d increment sites; no path through one iteration passes two of them", len(incs)),
-		fmt.Sprintf("a path through one iteration of the rune loop increments the line counter %d times: one rune can end at most one line, so line numbers overrun the input", maxInc))
-	c.R.RequireMin(rule, "line increment sites", len(incs), 1)
-
-	// (b) classify increments
-	pd := core.NewPostDom(fn)
-	tcd := pd.TransitiveControlDeps()
-	isNewlineTest := func(v ssa.Value) bool {
-		bo, ok := v.(*ssa.BinOp)
-		if !ok || bo.Op != token.EQL {
-			return false
-		}
-		k, ok := core.ConstInt(bo.Y)
-		return ok && k == '\n'
-	}
-	underNewline := func(b *ssa.BasicBlock) bool {
-		for _, f := range core.FactsAt(b) {
-			if isNewlineTest(f.Cond) && f.Truth {
-				return true
-			}
-		}
-		return false
-	}
-	_ = tcd
-	for _, i := range incs {
-		key := "tokenizeStream: line increment"
-		if underNewline(i.Block()) {
-			// the rune that is compared with '\n' must be the decoded rune itself, not a rewritten value
-			direct := false
-			for _, f := range core.FactsAt(i.Block()) {
-				if isNewlineTest(f.Cond) && f.Truth {
-					x := f.Cond.(*ssa.BinOp).X
-					if ex, ok := x.(*ssa.Extract); ok && ex.Index == 0 {
-						if dc, ok := ex.Tuple.(*ssa.Call); ok && core.StaticCalleeName(&dc.Call) == "unicode/utf8.DecodeRune" {
-							direct = true
+	flushes := func(path eng.Path) bool {
+		for _, b := range path.Blocks {
+			for _, in := range b.Instrs {
+				call, ok := in.(*ssa.Call)
+				if !ok {
+					continue
+				}
+				if f := call.Call.StaticCallee(); f != nil {
+					for i, a := range call.Call.Args {
+						if i < len(f.Params) && isInt(a.Type()) && isLineParam(f, i, 0) {
+							return true
 						}
 					}
 				}
 			}
-			c.R.Check(direct, rule, key+" under the newline test on the decoded rune", p.Pos(i.Pos()), "executed only when the rune just decoded is '\\n'",
-				"the value compared with '\\n' is not the rune that was decoded (it can have been rewritten from another character, e.g. '\\r'): a line break is counted for a rune that does not end a physical line, so CRLF input gets different line numbers")
-			continue
 		}
-		// deferred increment: guarded by a boolean flag that is cleared on the same path
-		var flag ssa.Value
-		for _, f := range core.FactsAt(i.Block()) {
-			if phi, ok := f.Cond.(*ssa.Phi); ok && f.Truth && isBool(phi.Type()) {
-				flag = phi
+		return false
+	}
+	describe := func(path eng.Path) string {
+		// the source lines of the branch decisions taken
+		var parts []string
+		for _, l := range path.Lits {
+			if len(parts) >= 8 {
+				parts = append(parts, "...")
+				break
 			}
+			pos := p.Pos(l.Cond.Pos())
+			if i := strings.LastIndex(pos, ":"); i >= 0 {
+				pos = pos[i+1:]
+			}
+			parts = append(parts, fmt.Sprintf("%s=%v", pos, l.Truth))
 		}
-		if flag == nil {
-			c.R.Fail(rule, key+" outside the newline test without a pending-newline flag", p.Pos(i.Pos()), "the counter advances although no newline is being consumed and no flag records a swallowed newline")
+		return "branch decisions (line=outcome): " + strings.Join(parts, " ")
+	}
+
+	// ---- enumerate the iterations -----------------------------------------------------------
+	type iter struct {
+		path eng.Path
+		pred int // index of the back-edge predecessor in header.Preds
+	}
+	var iters []iter
+	for k, pr := range header.Preds {
+		if !inLoop(pr) {
 			continue
 		}
-		cleared := false
-		web := boolWeb(flag)
-		for w := range web {
-			phi, ok := w.(*ssa.Phi)
-			if !ok {
+		paths, ok := eng.EnumPaths(header, pr, func(b *ssa.BasicBlock) bool { return !inLoop(b) }, 20000)
+		if !ok {
+			c.R.Undecided(rule, "tokenizeStream: line accounting", p.Pos(header.Instrs[0].Pos()), "too many paths through one iteration of the rune loop")
+			return
+		}
+		for _, pa := range paths {
+			iters = append(iters, iter{pa, k})
+		}
+	}
+	c.R.Count(rule+":paths through one iteration of the rune loop", len(iters))
+	c.R.RequireMin(rule, "paths through one iteration of the rune loop", len(iters), 8)
+	// the counters that are added to the line number
+	held := map[ssa.Value]bool{}
+	nInc := 0
+	for _, it := range iters {
+		le := eval(linePhi.Edges[it.pred], it.path, 0)
+		if le.k != 0 || len(le.co) != 1 {
+			nInc++
+		}
+		for s := range le.co {
+			if s == ssa.Value(linePhi) {
 				continue
 			}
-			for k, e := range phi.Edges {
-				if cst, ok := e.(*ssa.Const); ok && cst.Value != nil && cst.Value.String() == "false" {
-					pb := phi.Block().Preds[k]
-					if pb == i.Block() || i.Block().Dominates(pb) {
-						cleared = true
+			if !intPhis[s] {
+				c.R.Undecided(rule, "tokenizeStream: line counter update shape", p.Pos(linePhi.Pos()), "the line counter is updated with "+s.String()+", which is neither a constant nor a loop-carried counter; "+describe(it.path))
+				return
+			}
+			held[s] = true
+		}
+	}
+	c.R.RequireMin(rule, "line increment sites", nInc, 1)
+	var heldNames []string
+	for h := range held {
+		heldNames = append(heldNames, h.(*ssa.Phi).Comment)
+	}
+	// ---- R03.9: the accounting invariant ----------------------------------------------------
+	bad, badFlush := "", ""
+	nNewline := 0
+	for _, it := range iters {
+		sum := eval(linePhi.Edges[it.pred], it.path, 0)
+		start := lin{co: map[ssa.Value]int{linePhi: 1}}
+		for h := range held {
+			hp := h.(*ssa.Phi)
+			he := eval(hp.Edges[it.pred], it.path, 0)
+			sum = add(sum, he, 1)
+			start = add(start, lin{co: map[ssa.Value]int{h: 1}}, 1)
+			// R03.11
+			if flushes(it.path) && badFlush == "" {
+				zero := len(he.co) == 0 && he.k == 0
+				if !zero && len(he.co) == 1 && he.co[h] == 1 && he.k == 0 {
+					// unchanged: fine when the path knows the counter is zero (h > 0 is false, or h == 0)
+					for _, l := range it.path.Lits {
+						if bo, ok := l.Cond.(*ssa.BinOp); ok && bo.X == h {
+							if k, isK := core.ConstInt(bo.Y); isK && k == 0 && ((bo.Op == token.GTR && !l.Truth) || (bo.Op == token.EQL && l.Truth) || (bo.Op == token.NEQ && !l.Truth) || (bo.Op == token.LEQ && l.Truth)) {
+								zero = true
+							}
+						}
 					}
+				}
+				if !zero {
+					badFlush = "a path hands the collected words to the document and leaves the held-back line breaks pending: the following words are numbered before those line breaks are counted, so they are reported on an earlier line than their own; " + describe(it.path)
 				}
 			}
 		}
-		c.R.Check(cleared, rule, key+" under a pending-newline flag clears the flag on the same path", p.Pos(i.Pos()),
-			"deferred increment consumes the flag", "the deferred increment does not clear its flag: one swallowed newline is counted on every later word")
-		// the flag is raised only under a second flag, which is raised only on a newline path without increment
-		okRaise, why := flagRaisedOnlyAfterSwallowedNewline(web, underNewline, linePhi, inLoop)
-		c.R.Check(okRaise, rule, "tokenizeStream: the pending-newline flag is raised only after a newline that was consumed without advancing the counter", p.Pos(i.Pos()), why, why)
+		delta := add(sum, start, -1)
+		nl, rewritten := isNewlinePath(it.path)
+		if nl {
+			nNewline++
+		}
+		want := 0
+		if nl {
+			want = 1
+		}
+		if bad == "" && (len(delta.co) != 0 || delta.k != want) {
+			what := "does not consume a newline"
+			if nl {
+				what = "consumes a newline"
+			} else if rewritten {
+				what = "compares a rewritten rune (not the rune that was decoded) with '\\n'"
+			}
+			ch := fmt.Sprintf("%+d", delta.k)
+			for s, n := range delta.co {
+				ch += fmt.Sprintf(" %+d*%s", n, core.AP(s))
+			}
+			bad = fmt.Sprintf("an iteration that %s changes line + held line breaks by %s (expected %+d): line numbers run ahead of or fall behind the input; %s", what, ch, want, describe(it.path))
+		}
 	}
+	okDetail := fmt.Sprintf("%d paths through one iteration (%d consume a newline); line + held counters %v advance by exactly one on a newline and not otherwise", len(iters), nNewline, heldNames)
+	c.R.Check(bad == "", rule, "tokenizeStream: the line count (with held-back line breaks) advances by exactly one per consumed newline", p.Pos(linePhi.Pos()), okDetail, bad)
+	c.R.RequireMin(rule, "iterations that consume a newline", nNewline, 1)
+	if len(held) > 0 {
+		r11 := strings.Replace(rule, "R03.9", "R03.11", 1)
+		c.R.Check(badFlush == "", r11, "tokenizeStream: no held-back line break survives the hand-over of a line's words to the document", p.Pos(linePhi.Pos()),
+			"on every path that hands words to the document the held counters end at zero", badFlush)
+	}
+	// ---- entry values: the outer loop passes the counters through unchanged -----------------------
+	for v := range map[ssa.Value]bool{linePhi: true} {
+		_ = v
+	}
+	check := func(phi *ssa.Phi, init int64, what string) {
+		ok := true
+		for k, pr := range header.Preds {
+			if inLoop(pr) {
+				continue
+			}
+			if !entryValueOK(phi.Edges[k], phi, init, 0) {
+				ok = false
+			}
+		}
+		c.R.Check(ok, rule, "tokenizeStream: "+what+" enters the rune loop unchanged", p.Pos(phi.Pos()), fmt.Sprintf("starts at %d and is carried through the read loop as it is", init), what+" is modified outside the rune loop (between two reads): the accounting invariant does not cover it")
+	}
+	check(linePhi, 1, "the line counter")
+	for h := range held {
+		check(h.(*ssa.Phi), 0, "the held line-break counter")
+	}
+}
+
+// entryValueOK: v is the constant init, the loop's own phi, or a phi of such values.
+func entryValueOK(v ssa.Value, own *ssa.Phi, init int64, depth int) bool {
+	if v == ssa.Value(own) {
+		return true
+	}
+	if k, ok := core.ConstInt(v); ok {
+		return k == init
+	}
+	if phi, ok := v.(*ssa.Phi); ok && depth < 6 {
+		for _, e := range phi.Edges {
+			if e == ssa.Value(phi) {
+				continue
+			}
+			if !entryValueOK(e, own, init, depth+1) {
+				return false
+			}
+		}
+		return true
+	}
+	return false
 }
 
 func isBool(t types.Type) bool {
